@@ -1,43 +1,51 @@
 (* C31 wire functions.
-   input : VL [VZ mx; VL [VB chunk ...]]   NewDecoder(mx); Write(chunk) for each chunk until an error; Close()
-   output: VL [VL fields; VZ status; VZ tableSize; VZ tableMax; VZ tableEntries]  (status 0 = no error),
-           or VL [VZ -2] when the implementation panicked *)
+   input : VL [VZ mx; VZ M; VL [VB chunk ...]]   NewDecoder(mx); SetMaxStringLength(M) (0 = unlimited);
+                                                 Write(chunk) for each chunk until an error; Close()
+   output: VL [VL fields; VZ status; VZ tableSize; VZ tableMax; VZ tableEntries]  (status 0 = no error;
+           ErrStringLength and ErrInvalidHuffman are one class, 4), or VL [VZ -2] when the implementation panicked *)
 From Coq Require Import List ZArith Bool.
 From Bfe Require Import lib.Val lib.Bytes model.Huffman model.Hpack.
 Import ListNotations.
 Open Scope Z_scope.
 
-Definition decode_input (i : val) : option (Z * list bytes) :=
+Definition decode_input (i : val) : option (Z * Z * list bytes) :=
   match i with
-  | VL [VZ mx; VL chunks] => match all_some (map as_B chunks) with Some l => Some (mx, l) | None => None end
+  | VL [VZ mx; VZ M; VL chunks] => match all_some (map as_B chunks) with Some l => Some (mx, M, l) | None => None end
   | _ => None
   end.
-Definition observe (hd : bytes -> hres) (mx : Z) (chunks : list bytes) : val :=
-  let '(d, fs, st) := dec_run hd (new_decoder mx) chunks [] in
+Definition observe (hd : bytes -> hres) (mx M : Z) (chunks : list bytes) : val :=
+  let '(d, fs, st) := dec_run_lim hd M (new_decoder mx) chunks [] in
   if st =? ST_PANIC then VL [VZ (-2)]
   else VL [fields_val fs; VZ st; VZ (dsize (ddt d)); VZ (dmax (ddt d)); vnat (length (ents (ddt d)))].
+(* the model: Huffman strings are decoded by the RFC bit-level decoder (= the byte-trie decoder, C31_trie_equals_bitlevel) *)
 Definition run_C31 (i : val) : val :=
   match decode_input i with
-  | Some (mx, chunks) => observe huff_decode_spec mx chunks
+  | Some (mx, M, chunks) => observe huff_decode_spec mx M chunks
   | None => VErr 0
   end.
 (* same observation with the transcription of the byte-trie Huffman decoder *)
 Definition run_C31_trie (i : val) : val :=
   match decode_input i with
-  | Some (mx, chunks) => observe huff_decode mx chunks
+  | Some (mx, M, chunks) => observe huff_decode mx M chunks
   | None => VErr 0
   end.
 Definition agree_C31 (i o : val) : bool := val_eqb (run_C31 i) o && val_eqb (run_C31_trie i) o.
 
 (* THE PROPERTY: the observation is not a panic; if the RFC 7541 reference decoder accepts the concatenated
    input, the implementation reports no error, emitted exactly the reference fields and holds a table of
-   the same size and entry count; if the reference rejects it, the implementation reported an error. *)
+   the same size and entry count - or, when a string length limit M is set, it reports an error and the limit
+   explains it (a reference field has a name or value longer than M, or the input itself is longer than M bytes);
+   if the reference rejects the input, the implementation reported an error. *)
+Definition limit_explains (M : Z) (want : list field) (input : bytes) : bool :=
+  negb (M =? 0) &&
+  (existsb (fun f => (blen (fname f) >? M) || (blen (fvalue f) >? M)) want || (blen input >? M)).
 Definition prop_C31 (i o : val) : bool :=
   match decode_input i, o with
-  | Some (mx, chunks), VL [fsv; VZ st; VZ sz; VZ _; VZ n] =>
+  | Some (mx, M, chunks), VL [fsv; VZ st; VZ sz; VZ _; VZ n] =>
     match rfc_decode mx (concat chunks), val_fields fsv with
     | Some (t, want), Some fs =>
-      (st =? 0) && fields_eqb fs want && (sz =? tab_size (rents t)) && (n =? Z.of_nat (length (rents t)))
+      ((st =? 0) && fields_eqb fs want && (sz =? tab_size (rents t)) && (n =? Z.of_nat (length (rents t))))
+      || (negb (st =? 0) && limit_explains M want (concat chunks))
     | None, Some _ => negb (st =? 0)
     | _, None => false
     end
@@ -45,8 +53,10 @@ Definition prop_C31 (i o : val) : bool :=
   end.
 Definition kf_C31 (i : val) : Z := 0.
 
+(* well-formed inputs covered by the central theorem: default string limit (M = 0).  Inputs with M > 0 are also
+   generated and checked (agree/prop) but not covered by the theorem. *)
 Definition wf_C31 (i : val) : bool :=
   match decode_input i with
-  | Some (mx, chunks) => (0 <=? mx) && forallb wf_bytes chunks
+  | Some (mx, M, chunks) => (0 <=? mx) && (M =? 0) && forallb wf_bytes chunks
   | None => false
   end.
